@@ -1259,3 +1259,51 @@ func retVal(ret *ssa.Return, idx int) ssa.Value {
 	}
 	return v
 }
+
+// deepOrigins: origins of v, descending into the results of repository functions and closures (also through named
+// results, which SSA spills into locals) up to the given depth.
+func (c *Ctx) deepOrigins(v ssa.Value, depth int) []Origin {
+	var out []Origin
+	for _, o := range c.origins(v) {
+		call, _ := o.Val.(*ssa.Call)
+		var g *ssa.Function
+		if o.Kind == "call" && call != nil {
+			g = staticCallee(&call.Call)
+		}
+		if g == nil || g.Blocks == nil || depth <= 0 || !strings.HasPrefix(fnPkgPath(g), modPath) {
+			out = append(out, o)
+			continue
+		}
+		descended := false
+		for _, b := range g.Blocks {
+			ret, ok := b.Instrs[len(b.Instrs)-1].(*ssa.Return)
+			if !ok || o.ResIdx >= len(ret.Results) {
+				continue
+			}
+			res := ret.Results[o.ResIdx]
+			if u, ok := res.(*ssa.UnOp); ok {
+				if al, ok := u.X.(*ssa.Alloc); ok && al.Referrers() != nil {
+					for _, rf := range *al.Referrers() {
+						if st, ok := rf.(*ssa.Store); ok && st.Addr == ssa.Value(al) {
+							if _, isConst := st.Val.(*ssa.Const); isConst {
+								continue
+							}
+							out = append(out, c.deepOrigins(st.Val, depth-1)...)
+							descended = true
+						}
+					}
+					continue
+				}
+			}
+			if _, isConst := res.(*ssa.Const); isConst {
+				continue
+			}
+			out = append(out, c.deepOrigins(res, depth-1)...)
+			descended = true
+		}
+		if !descended {
+			out = append(out, o)
+		}
+	}
+	return out
+}
